@@ -156,8 +156,16 @@ def call_native_method(I, f, args, kwargs):
         return f(*args, **kwargs)
     if isinstance(slf, tuple) and hasattr(type(slf), "_fields") and f.__name__ in ("_replace", "_asdict"):
         return f(*args, **kwargs)         # namedtuple helpers only move values around
+    if isinstance(slf, type) and issubclass(slf, tuple) and hasattr(slf, "_fields") and f.__name__ == "_make" and len(args) == 1 and not kwargs:
+        # namedtuple._make(iterable): the values are only moved into the tuple
+        items = list(iterate(I, args[0]))
+        if len(items) != len(slf._fields):
+            I.raise_(TypeError("Expected %d arguments, got %d" % (len(slf._fields), len(items))))
+        return tuple.__new__(slf, items)
     if all_clean(list(args) + [slf], kwargs):
         return I.native(f, *args, **kwargs)
+    if I.allow_on_demand(fn):
+        return I.call(f, args, kwargs)
     I.unsupported("no model for %s with symbolic data" % getattr(f, "__qualname__", f))
 
 
@@ -220,6 +228,8 @@ def call_other(I, f, args, kwargs):
         return construct(I, f, args, kwargs)
     if all_clean(args, kwargs):
         return I.native(f, *args, **kwargs)
+    if isinstance(f, types.FunctionType) and I.allow_on_demand(f):
+        return I.call(f, args, kwargs)
     if isinstance(f, types.FunctionType) or isinstance(f, types.BuiltinFunctionType):
         I.unsupported("no model for %s.%s with symbolic arguments" % (getattr(f, "__module__", "?"), getattr(f, "__qualname__", f)))
     if isinstance(f, (operator.attrgetter, operator.itemgetter, operator.methodcaller)) and len(args) == 1 and not kwargs:
